@@ -155,6 +155,20 @@ def run(chk):
         r3.require(ob not in found, f"{ctf.key}|{ob}", ctf.where(), f"compute_temperature_features(meter_index, temperatures, data_quality=True): {found.get(ob, '')}",
                    sample={"obligation": ob, "paths": n_paths})
     _readings_reach_aggregation(chk)
+    _meter_days_complete(chk)
+
+
+def _meter_days_complete(chk):
+    """R09.6: the meter days the temperatures are grouped onto are *all* calendar days of the span (shared with C05, rules/daycompletion.py)."""
+    from rules import daycompletion
+    r6 = chk.rule("R09.6", "each day's temperature is the mean of that day only: the daily data class puts every calendar day of the span back as a meter row (days matched on year, month and day), so no day's readings are pooled into its predecessor", 1)
+    fi = chk.repo.func(DAILY_DATA, "_DailyData._compute_meter_value_df")
+    bad, n = daycompletion.judge(chk)
+    for k_, msg in bad:
+        r6.require(False, f"{fi.key}|{k_}", fi.where(), "_compute_meter_value_df: " + msg)
+    if n < 1:
+        raise AnalysisError(f"{fi.key}: no interpreted path completes the calendar (anchor changed)")
+    r6.inst(f"{fi.key}|paths[{n}]", {"paths_completing_the_calendar": n})
 
 
 def _readings_reach_aggregation(chk):
